@@ -3,8 +3,8 @@
    auto_table_layout), model/C10Grid.v (column positions / cell extents of table_layout), model/C10Borders.v
    (collapse_table_borders); tied to /repo by the correspondence streams of harness/p_c10.py. *)
 From Coq Require Import QArith List Bool Sorting.Sorted.
-Require Import WV.model.C10Distribute WV.model.C10Layout WV.model.C10Grid WV.model.C10Borders.
-Require Import WV.proofs.C10_distribute WV.proofs.C10_fixed WV.proofs.C10_auto WV.proofs.C10_grid WV.proofs.C10_borders.
+Require Import WV.model.C10Distribute WV.model.C10Layout WV.model.C10Grid WV.model.C10Borders WV.model.C10Preferred.
+Require Import WV.proofs.C10_distribute WV.proofs.C10_fixed WV.proofs.C10_auto WV.proofs.C10_grid WV.proofs.C10_borders WV.proofs.C10_preferred.
 Import ListNotations.
 Open Scope Q_scope.
 
@@ -157,6 +157,32 @@ Theorem C10_auto_zero_division_without_oracle_hypothesis :
   auto_layout 0 None 15 15 25 0 [mkacol true true 0 5 10; mkacol true true 0 10 5; mkacol true false 0 10 0] = None.
 Proof. exact auto_zero_division_needs_oracle_hypothesis. Qed.
 Print Assumptions C10_auto_zero_division_without_oracle_hypothesis.
+
+(* ------------------------------------------------------------------ preferred widths of the columns (preferred.py) *)
+(* h = horizontal border spacing (0 when borders collapse); columns = what column groups, columns and cells of
+   span 1 contribute to each column; cells = the cells with colspan > 1 in the order the source visits them.
+   The computation never raises, and at the end every colspan cell lying inside the grid fits in the columns it
+   spans plus the h spacings between them, for min-content and for max-content:
+     s_min c <= sum(min-content widths of its columns) + (colspan - 1) * h   (same for max) *)
+Theorem C10_colspan_cells_fit_their_columns (h : Q) (columns : list (list contrib)) (cells : list scell) :
+  exists st, preferred_columns h columns cells = Some st /    length st = length columns /    forall c, In c cells -> inside c (length columns) -> fits_min h st c /\ fits_max h st c.
+Proof. exact (preferred_columns_correct h columns cells). Qed.
+Print Assumptions C10_colspan_cells_fit_their_columns.
+
+(* the loop over colspan cells never shrinks a column, from any state *)
+Theorem C10_colspan_loop_only_grows (h : Q) (cells : list scell) (st st' : list pcol) :
+  colspan_loop h cells st = Some st' ->
+  grows st st' /\ forall c, In c cells -> inside c (length st) -> fits_min h st' c /\ fits_max h st' c.
+Proof. exact (colspan_cells_fit h cells st st'). Qed.
+Print Assumptions C10_colspan_loop_only_grows.
+
+(* the spacing must be the horizontal one: computing with the vertical spacing (30) of `border-spacing: 2px 30px`
+   leaves the colspan cell wider than its columns plus the horizontal spacing (2) *)
+Theorem C10_vertical_spacing_refuted :
+  exists st, (preferred_columns 30 [[mkcontrib 10 10 0 false]; [mkcontrib 10 10 0 false]] [mkscell 0 2 100 100] = Some st)
+             /\ ~ fits_min 2 st (mkscell 0 2 100 100).
+Proof. exact vertical_spacing_would_not_fit. Qed.
+Print Assumptions C10_vertical_spacing_refuted.
 
 (* ------------------------------------------------------------------ column positions and cell extents *)
 Theorem C10_columns_fill_table (rtl : bool) (cbx W s : Q) (ws : list Q) :
